@@ -65,7 +65,7 @@ theorem resetChannel_mid (c : C) (r : List Task) (ph : Bool) (hi : Mid c (.reset
     simp at h6c this; omega
   unfold resetChannel
   rw [if_neg (by simp [h6b])]
-  obtain ⟨notDead, a1, a2, a3, a4, a5, a6, a7, a8, a9, a10, a11, a13, a14, a15, a16, s1, c1, c2, c3, c4, c5, c6, c7, c8, c9, c10, g1, g3, t1⟩ := hi
+  obtain ⟨notDead, a1, a2, a3, a4, a5, a6, a7, a8, a9, a10, a11, a13, a14, a15, a16, s1, c1, c2, c3, c4, c5, c6, c7, c8, c9, c10, g1, g3, h1, t1⟩ := hi
   constructor
   all_goals mid_auto
 
@@ -131,7 +131,7 @@ theorem startInLoop_mid (c : C) (r : List Task) (ph : Bool) (hi : Mid c r ph) (h
     have hd := nextDelay_spec c.nretry
     have hdp := specDelay_pos c.nretry
     have hnz := nRetry_zero hnt
-    obtain ⟨notDead, a1, a2, a3, a4, a5, a6, a7, a8, a9, a10, a11, a13, a14, a15, a16, s1, c1, c2, c3, c4, c5, c6, c7, c8, c9, c10, g1, g3, t1⟩ := hi
+    obtain ⟨notDead, a1, a2, a3, a4, a5, a6, a7, a8, a9, a10, a11, a13, a14, a15, a16, s1, c1, c2, c3, c4, c5, c6, c7, c8, c9, c10, g1, g3, h1, t1⟩ := hi
     unfold connect
     simp only
     obtain ⟨e, b, he⟩ := popConnect_snd ({ c with nsock := c.nsock + 1, sockSt := c.sockSt ++ [SockSt.opened], trace := c.trace ++ [Ev.sockCreated c.nsock, Ev.attempt c.nsock c.now] } : C)
@@ -180,7 +180,7 @@ theorem stopInLoop_mid (c : C) (r : List Task) (ph : Bool) (hi : Mid c (.stopInL
     simp only [retryClosesSocket, retryUsesOldDelay, retrySchedules, if_true, retryDelayUs]
     cases hcc : c.cConnect
     · simp only [Bool.false_eq_true, if_false]
-      obtain ⟨notDead, a1, a2, a3, a4, a5, a6, a7, a8, a9, a10, a11, a13, a14, a15, a16, s1, c1, c2, c3, c4, c5, c6, c7, c8, c9, c10, g1, g3, t1⟩ := hi
+      obtain ⟨notDead, a1, a2, a3, a4, a5, a6, a7, a8, a9, a10, a11, a13, a14, a15, a16, s1, c1, c2, c3, c4, c5, c6, c7, c8, c9, c10, g1, g3, h1, t1⟩ := hi
       constructor
       all_goals mid_auto
     · simp only [if_true]
@@ -196,12 +196,12 @@ theorem stopInLoop_mid (c : C) (r : List Task) (ph : Bool) (hi : Mid c (.stopInL
         · have := (hi.g3 h).1; rw [hcc] at this; cases this
       have htr3 := htr2.retrySched (t := c.now) hsr hal
       rw [← hi.g1] at htr3
-      obtain ⟨notDead, a1, a2, a3, a4, a5, a6, a7, a8, a9, a10, a11, a13, a14, a15, a16, s1, c1, c2, c3, c4, c5, c6, c7, c8, c9, c10, g1, g3, t1⟩ := hi
+      obtain ⟨notDead, a1, a2, a3, a4, a5, a6, a7, a8, a9, a10, a11, a13, a14, a15, a16, s1, c1, c2, c3, c4, c5, c6, c7, c8, c9, c10, g1, g3, h1, t1⟩ := hi
       constructor
       all_goals mid_auto
   · rename_i hst
     simp only [stopActs] at hst
-    obtain ⟨notDead, a1, a2, a3, a4, a5, a6, a7, a8, a9, a10, a11, a13, a14, a15, a16, s1, c1, c2, c3, c4, c5, c6, c7, c8, c9, c10, g1, g3, t1⟩ := hi
+    obtain ⟨notDead, a1, a2, a3, a4, a5, a6, a7, a8, a9, a10, a11, a13, a14, a15, a16, s1, c1, c2, c3, c4, c5, c6, c7, c8, c9, c10, g1, g3, h1, t1⟩ := hi
     constructor
     all_goals mid_auto
 
@@ -241,13 +241,13 @@ theorem failAttempt_mid (c : C) (r : List Task) (hi : Mid c r false) (hon : c.ch
   simp only [retryClosesSocket, retryUsesOldDelay, retrySchedules, if_true, retryDelayUs]
   cases hcc : c.cConnect
   · simp only [Bool.false_eq_true, if_false]
-    obtain ⟨notDead, a1, a2, a3, a4, a5, a6, a7, a8, a9, a10, a11, a13, a14, a15, a16, s1, c1, c2, c3, c4, c5, c6, c7, c8, c9, c10, g1, g3, t1⟩ := hi
+    obtain ⟨notDead, a1, a2, a3, a4, a5, a6, a7, a8, a9, a10, a11, a13, a14, a15, a16, s1, c1, c2, c3, c4, c5, c6, c7, c8, c9, c10, g1, g3, h1, t1⟩ := hi
     constructor
     all_goals mid_auto
   · simp only [if_true]
     have htr3 := htr2.retrySched (t := c.now) (hsr hcc) (hal hcc)
     rw [← hi.g1] at htr3
-    obtain ⟨notDead, a1, a2, a3, a4, a5, a6, a7, a8, a9, a10, a11, a13, a14, a15, a16, s1, c1, c2, c3, c4, c5, c6, c7, c8, c9, c10, g1, g3, t1⟩ := hi
+    obtain ⟨notDead, a1, a2, a3, a4, a5, a6, a7, a8, a9, a10, a11, a13, a14, a15, a16, s1, c1, c2, c3, c4, c5, c6, c7, c8, c9, c10, g1, g3, h1, t1⟩ := hi
     constructor
     all_goals mid_auto
 
@@ -265,11 +265,23 @@ theorem handleError_mid (c : C) (r : List Task) (hi : Mid c r false) (hon : c.ch
     exact failAttempt_mid c r hi hon k' hk' _ c.envSelf _
   · rename_i hk'; rw [hk] at hk'; cases hk'
 
+/-- while an attempt is in progress and wanted, the client exists -/
+theorem attempt_alive (c : C) (r : List Task) (hi : Mid c r false) (hon : c.chanOn = true) (hcc : c.cConnect = true) :
+    c.clientAlive = true := by
+  have hatt : attempting c.cstate c.timers := .inl (hi.a1 hon)
+  cases h : c.clientAlive
+  · rcases (hi.a11 h).2 with h2 | h2
+    · rw [hcc] at h2; cases h2
+    · exact absurd hatt h2.1
+  · rfl
+
 /-- the attempt on socket `k` succeeded and the user still wants the connection -/
 theorem handOver_mid (c : C) (r : List Task) (hi : Mid c r false) (hon : c.chanOn = true) (k : Nat) (hk : c.chan = some k)
     (hcc : c.cConnect = true) (e1 : List Nat) (e2 : List Bool) (b : Bool) :
-    Mid (newConnection { c with chanOn := false, pending := c.pending ++ [Task.resetChannel], envSoErr := e1, envSelf := e2,
-                                starved := b, cstate := .kConnected } k) r false := by
+    Mid { c with chanOn := false, pending := c.pending ++ [Task.resetChannel], envSoErr := e1, envSelf := e2,
+                 starved := b, cstate := .kConnected,
+                 sockSt := c.sockSt.set k .handedOver, conns := c.conns ++ [{ sock := k }], connection := some k,
+                 ups := c.ups + 1, trace := c.trace ++ [.handedOver k, .up k] } r false := by
   have hst := hi.a1 hon
   have hop : c.sockSt[k]? = some SockSt.opened := by
     obtain ⟨k', hk', hop⟩ := hi.a3 hon; rw [hk] at hk'; cases hk'; exact hop
@@ -307,15 +319,12 @@ theorem handOver_mid (c : C) (r : List Task) (hi : Mid c r false) (hon : c.chanO
     rw [findIn_append_new _ rfl, hnone]; simp
   have hfa : ∀ j x, findIn c.conns j = some x → findIn (c.conns ++ [({ sock := k } : ConnRec)]) j = some x := by
     intro j x h; rw [findIn_append_new _ rfl, h]; simp
-  unfold newConnection
-  split
-  case isFalse h => exact absurd (hal hcc) h
   have htr3 : Tr (c.trace ++ [Ev.handedOver k, Ev.up k]) c.nsock (c.sockSt.set k .handedOver) (c.conns ++ [{ sock := k }])
       (c.ups + 1) c.nretry c.stopReq c.clientAlive := by
     have := hi.tr; rw [hups] at this ⊢
     exact this.handUp hop hnone (hsr hcc) (hal hcc)
   have hal' := hal hcc
-  obtain ⟨notDead, a1, a2, a3, a4, a5, a6, a7, a8, a9, a10, a11, a13, a14, a15, a16, s1, c1, c2, c3, c4, c5, c6, c7, c8, c9, c10, g1, g3, t1⟩ := hi
+  obtain ⟨notDead, a1, a2, a3, a4, a5, a6, a7, a8, a9, a10, a11, a13, a14, a15, a16, s1, c1, c2, c3, c4, c5, c6, c7, c8, c9, c10, g1, g3, h1, t1⟩ := hi
   constructor
   all_goals mid_auto
 
@@ -353,49 +362,8 @@ theorem closeEstablished_mid (c : C) (r : List Task) (hi : Mid c r false) (hon :
     · rfl
     · have := (hi.g3 h).1; rw [hcc] at this; cases this
   unfold closeSock
-  obtain ⟨notDead, a1, a2, a3, a4, a5, a6, a7, a8, a9, a10, a11, a13, a14, a15, a16, s1, c1, c2, c3, c4, c5, c6, c7, c8, c9, c10, g1, g3, t1⟩ := hi
+  obtain ⟨notDead, a1, a2, a3, a4, a5, a6, a7, a8, a9, a10, a11, a13, a14, a15, a16, s1, c1, c2, c3, c4, c5, c6, c7, c8, c9, c10, g1, g3, h1, t1⟩ := hi
   constructor
   all_goals mid_auto
-
-theorem handleWrite_mid (c : C) (r : List Task) (hi : Mid c r false) (hon : c.chanOn = true) :
-    Mid (handleWrite c) r false := by
-  have hst := hi.a1 hon
-  obtain ⟨k, hk, hop⟩ := hi.a3 hon
-  unfold handleWrite
-  rw [if_pos (by simp [writeActs, hst])]
-  split
-  · rename_i k' hk'
-    simp only
-    rw [popSoErr_eq]
-    split
-    · exact failAttempt_mid c r hi hon k' hk' _ c.envSelf _
-    · rw [popSelf_eq]
-      split
-      · exact failAttempt_mid c r hi hon k' hk' _ _ _
-      · split
-        · rename_i hcc
-          exact handOver_mid c r hi hon k' hk' hcc _ _ _
-        · rename_i hcc
-          exact closeEstablished_mid c r hi hon k' hk' (by simpa [writeHandsOver] using hcc) _ _ _
-  · rename_i hk'; rw [hk] at hk'; cases hk'
-
-theorem dispatchConnector_mid (c : C) (r : List Task) (rev : Nat) (hi : Mid c r false) :
-    Mid (dispatchConnector c rev) r false := by
-  unfold dispatchConnector
-  split
-  · rename_i h
-    have hon : c.chanOn = true := h.2
-    split
-    · have h1 := handleError_mid c r hi hon
-      rw [if_neg (by simp [h1.notDead])]
-      split
-      · rename_i h2
-        exact handleWrite_mid _ r h1 (by simpa [MuduoVerif.Gen.Conn.dispWriteSub] using h2.2)
-      · exact h1
-    · rw [if_neg (by simp [hi.notDead])]
-      split
-      · exact handleWrite_mid c r hi hon
-      · exact hi
-  · exact hi
 
 end MuduoVerif.Client
